@@ -158,15 +158,22 @@ func (c *Ctx) lexerFlagJobs() []Job {
 	defer func() { LexSpecs = saved }()
 	var subset []*LexSpec
 	for _, l := range saved {
-		if l.Name == "L01" || l.Name == "L04" || l.Name == "L07" || (!c.Quick() && (l.Name == "L03" || l.Name == "L05")) {
+		if l.Name == "L01" || l.Name == "L04" || l.Name == "L07" || l.Name == "L13" || (!c.Quick() && (l.Name == "L03" || l.Name == "L05")) {
 			subset = append(subset, l)
 		}
 	}
 	LexSpecs = subset
 	jobs = append(jobs, c.c01Jobs(maxN, "-debug_lexer")...)
 	if c.Quick() {
-		// -zip and -v do not touch the lexer package: one small grammar suffices in the quick tier
-		LexSpecs = subset[len(subset)-1:]
+		// -zip and -v should not touch the lexer package: two small grammars in the quick tier
+		// (L13 has tokens the syntax part never mentions)
+		var small []*LexSpec
+		for _, l := range subset {
+			if l.Name == "L07" || l.Name == "L13" {
+				small = append(small, l)
+			}
+		}
+		LexSpecs = small
 		jobs = append(jobs, c.c01Jobs(2, "-zip", "-v")...)
 	} else {
 		jobs = append(jobs, c.c01Jobs(maxN, "-zip", "-v")...)
